@@ -7,8 +7,16 @@
   counter).  What Rust std / chrono compute stays lexical exactly as in C01: a parsed literal number
   is the text handed to `f64::from_str`, a parsed timestamp is its token text; the statement reads
   "parsing the printed text yields the lexical image of the tree".
+
+  Proved: `C08_holds` — the property at full strength for the explicit decidable well-formedness
+  predicate `WFf` (every literal kind the syntax admits, all characters in Str / Uri / display names,
+  any number of operands, nesting up to the parser's limit).  Helper lemmas: `Hs/Lemmas/Filter{Scan,Lex,
+  Parse}.lean` (tokens, the mutual induction over the tree) and `Hs/Lemmas/FilterRt{Delim,Lit,Parse,Wf}.lean`
+  (literals: the framing lemmas of the Zinc ladder `Hs/Lemmas/ZincRt*.lean` re-used for what follows a
+  literal in filter text; the induction with all literal kinds; the executable check).
 -/
 import Hs.Lemmas.FilterParse
+import Hs.Lemmas.FilterRtWf
 import Hs.Thm.C01
 namespace Hs.C08
 open Hs Hs.FText
@@ -74,15 +82,67 @@ end
 
 /-- **print-then-parse is the identity on every tree of the fragment** — unbounded in the number of
 operands, the length of paths, identifiers, Ref ids and Symbols, and (up to the limit of 64) the
-nesting.  This is `C08_full` restricted to `Fragment`.  Missing for the full statement: comparison
-literals of the kinds Number, Date, Time, DateTime (a framing lemma for `parse_number_date_time`
-with its look-ahead) and characters beyond ASCII inside Str / Uri literals and display names (UTF-8
-decode ∘ encode = id for the lossy decoder); the correspondence runs exercise all of these on every
-kind instead. -/
+nesting.  This is `C08_full` restricted to `Fragment` (no Number, Date, Time, DateTime literals, ASCII
+text only); `C08_holds` below removes both restrictions. -/
 theorem C08_fragment_partial : C08_full Fragment := by
   intro f ⟨hne, hall, hd⟩
   rw [lexImageO_ok f hall]
   exact print_parse f hne hall hd
+
+/-! ### proved: the property in full -/
+
+mutual
+/-- `lexImageT` is the function the lemma files use (`imgT2`, over `Hs.Zinc.lexImg`) -/
+theorem lexImageT_eq : (t : Term) → lexImageT t = imgT2 t
+  | .parens o => by simp [lexImageT, imgT2, lexImageO_eq o]
+  | .has _ => rfl
+  | .missing _ => rfl
+  | .isA _ => rfl
+  | .weq _ _ => rfl
+  | .rel _ _ Option.none => rfl
+  | .rel _ _ (some _) => rfl
+  | .cmp p op v => by simp [lexImageT, imgT2, Hs.C01.lexImage_eq v]
+theorem lexImageA_eq : (a : Ands) → lexImageA a = imgA2 a
+  | .nil => rfl
+  | .cons t ts => by simp [lexImageA, imgA2, lexImageT_eq t, lexImageA_eq ts]
+theorem lexImageO_eq : (o : Ors) → lexImageO o = imgO2 o
+  | .nil => rfl
+  | .cons a as => by simp [lexImageO, imgO2, lexImageA_eq a, lexImageO_eq as]
+end
+
+/-- **The well-formedness predicate of the property**, explicit and decidable (`Hs.FText.WF2`, evaluated by
+`Hs.FText.wfO`; `Hs/Lemmas/FilterRt{Parse,Wf,Lit}.lean`):
+
+* the `Or` and each of its `And`s is non-empty (an empty list prints as the empty text);
+* paths are non-empty lists of identifiers `[a-z][A-Za-z0-9_]*` (`WFPath`, `IdSeg`); the path of `tag`,
+  `path op literal` and `path *== @ref` is not the lone segment `not` (which the grammar reads as the operator);
+  relation names are identifiers;
+* Symbols are `[a-z][A-Za-z0-9~:._-]*` (`SymSeg`), Ref ids non-empty over `[A-Za-z0-9~:._-]` (`RefSeg`);
+* literals (`OkLit2`): Bool; Symbol; Ref with or without a display name, the display name ANY text; ANY Str; ANY
+  Uri; a finite Number whose text is a decimal `f64::from_str` accepts (`-?d+(.d+)?`, what `Display for f64`
+  prints) that does not round to infinity (`lexIsInf`, the filter lexer's `is_infinite()` test), with no unit or a
+  unit symbol of the unit table (`finiteNumOk`); Date, Time and DateTime whose texts chrono accepts and whose zone
+  name the zone table resolves (`dateOk`, `timeOk`, `dtOk` — the predicates of C01);
+* at most 64 nested groups (`nestO`, the parser's `MAX_NESTING_DEPTH`). -/
+def WFf (f : Ors) : Prop := WF2 f
+
+instance (f : Ors) : Decidable (WFf f) := inferInstanceAs (Decidable (WF2 f))
+
+/-- **C08 for the model, in full**: printing any well-formed filter tree and parsing the text returns the tree
+(its lexical image: a Number literal is re-read as exactly the text that was printed for it, a DateTime as its
+token text, and the Ref operand of `*==` / of a relation comes back without the display name `Display` does not
+print).  Unbounded in the number of operands, the length of paths, names, ids and texts; every literal kind the
+syntax admits; every character (non-ASCII text in Str, Uri and display names goes through the UTF-8 lemmas
+`lossy (encChars s) = s` of C01); nesting up to the parser's limit of 64.
+
+The hypotheses of `WFf` beyond the property's own list are lexical side conditions the real writer always meets
+(number text = what `Display for f64` prints for a finite value, date/time text = what chrono prints) and the
+nesting bound of the repaired parser; `cex_*` below show with kernel-checked witnesses that none of the
+hypotheses can be dropped. -/
+theorem C08_holds : C08_full WFf := by
+  intro f ⟨hne, hall, hd⟩
+  rw [lexImageO_eq f]
+  exact print_parse2 f hne hall hd
 
 mutual
 /-- only `tag`, `not tag` and groups -/
@@ -118,6 +178,15 @@ theorem literal_exact (p : Path) (op : CmpOp) (v : Val) (hp : WFPath p) (np : p 
   have h := C08_fragment_partial (.cons (.cons (.cmp p op v) .nil) .nil)
     ⟨by simp, by simp [AllO, AllA, OkT, hp, np, hv], by simp [nestO, nestA, nestT]⟩
   simpa [printFilter, printOrs, printAnds, printTerm, lexImageO, lexImageA, lexImageT, lexImage_lit v hv] using h
+
+/-- … and the same for EVERY literal kind: Number, Date, Time, DateTime, Str / Uri / display names over all
+characters (the literal comes back as its lexical image) -/
+theorem literal_exact_all (p : Path) (op : CmpOp) (v : Val) (hp : WFPath p) (np : p ≠ kwNot) (hv : OkLit2 v) :
+    filterOfBytes (printPath p ++ [32] ++ printOp op ++ [32] ++ printVal v)
+      = .ok (.cons (.cons (.cmp p op (Hs.C01.lexImage v)) .nil) .nil) := by
+  have h := C08_holds (.cons (.cons (.cmp p op v) .nil) .nil)
+    ⟨by simp, by simp [AllO2, AllA2, OkT2, hp, np, hv], by simp [nestO, nestA, nestT]⟩
+  simpa [printFilter, printOrs, printAnds, printTerm, lexImageO, lexImageA, lexImageT] using h
 
 /-- precedence: `and` binds tighter than `or` — `a or b and c` is `a or (b and c)`, for all
 identifiers -/
@@ -192,6 +261,95 @@ example : printFilter sample2 =
 example : WFPath [seg "d", seg "b"] ∧ [seg "d", seg "b"] ≠ kwNot := by simp only [WFPath]; decide
 example : IdSeg (seg "siteRef") ∧ [seg "siteRef"] ≠ kwNot := by decide
 
+/-- a tree with every newly covered literal kind: a negative Number with a non-ASCII unit of the table, a
+unit-less Number, a Date, a Time with a fraction, a UTC DateTime (`…Z`, followed by ` )`: the zone reader's
+two-byte look-ahead), a DateTime with offset and zone name, a Str, a Uri and a Ref display name with
+characters of 2, 3 and 4 UTF-8 bytes -/
+def sample3 : Ors :=
+  .cons (.cons (.cmp [seg "temp"] .ge (.num ⟨⟨0, seg "-21.5"⟩, some (seg "°C")⟩))
+          (.cons (.cmp [seg "n"] .lt (.num ⟨⟨0, seg "1000000"⟩, none⟩))
+          (.cons (.cmp [seg "d"] .eq (.date ⟨2024, 2, 29, seg "2024-02-29"⟩))
+          (.cons (.parens (.cons (.cons (.cmp [seg "t"] .le (.time ⟨1, 2, 3, 500000000, seg "01:02:03.500"⟩)) .nil)
+               (.cons (.cons (.cmp [seg "ts"] .gt
+                  (.dateTime ⟨0, 0, 0, seg "UTC", seg "UTC", seg "2024-02-29T12:34:56Z"⟩)) .nil) .nil))) .nil))))
+    (.cons (.cons (.cmp [seg "ts"] .ne
+            (.dateTime ⟨0, 0, -18000, seg "New_York", seg "America/New_York", seg "2024-02-29T12:34:56.789-05:00"⟩))
+          (.cons (.cmp [seg "dis"] .eq (.str (seg "Büro é€😀 \"x\"")))
+          (.cons (.cmp [seg "u"] .eq (.uri (seg "http://x/ä`b")))
+          (.cons (.cmp [seg "id"] .eq (.ref (seg "a-1") (some (seg "Raum 1 – Süd")))) .nil)))) .nil)
+
+/-- it satisfies the hypothesis of `C08_holds` (by evaluation of the decidable predicate) … -/
+theorem sample3_wf : WFf sample3 := by decide +kernel
+/-- … prints as expected … -/
+example : printFilter sample3 = bytes ("temp >= -21.5°C and n < 1000000 and d == 2024-02-29 and " ++
+    "( t <= 01:02:03.500 or ts > 2024-02-29T12:34:56Z ) or ts != 2024-02-29T12:34:56.789-05:00 New_York and " ++
+    "dis == \"Büro é€😀 \\\"x\\\"\" and u == `http://x/ä\\`b` and id == @a-1 \"Raum 1 – Süd\"") := by
+  decide +kernel
+/-- … and round-trips, by the theorem -/
+example : filterOfBytes (printFilter sample3) = .ok (lexImageO sample3) := C08_holds sample3 sample3_wf
+
+/-- one filter per newly covered literal kind -/
+example : OkLit2 (.num ⟨⟨0, seg "-12.5"⟩, some (seg "°F")⟩) := by decide +kernel
+example : OkLit2 (.num ⟨⟨0, seg "0.000001"⟩, some (seg "kW/m²")⟩) := by decide +kernel
+example : OkLit2 (.date ⟨2024, 2, 29, seg "2024-02-29"⟩) := by decide +kernel
+example : OkLit2 (.time ⟨23, 59, 59, 1000000000, seg "23:59:60"⟩) := by decide +kernel
+example : OkLit2 (.dateTime ⟨0, 0, 0, seg "London", seg "Europe/London", seg "2024-01-01T00:00:00Z"⟩) := by
+  decide +kernel
+example : OkLit2 (.str (seg "日本語 \u0001 😀")) ∧ OkLit2 (.uri (seg "http://x/é\n")) ∧
+    OkLit2 (.ref (seg "r") (some (seg "Ünïcode"))) := by decide +kernel
+example : filterOfBytes (bytes "since >= 2024-02-29") =
+    .ok (.cons (.cons (.cmp [seg "since"] .ge (.date ⟨2024, 2, 29, seg "2024-02-29"⟩)) .nil) .nil) := by
+  have h := literal_exact_all [seg "since"] .ge (.date ⟨2024, 2, 29, seg "2024-02-29"⟩)
+    (by simp only [WFPath]; decide) (by decide) (by decide +kernel)
+  have e : printPath [seg "since"] ++ [32] ++ printOp .ge ++ [32] ++ printVal (.date ⟨2024, 2, 29, seg "2024-02-29"⟩)
+      = bytes "since >= 2024-02-29" := by decide +kernel
+  rw [e] at h
+  exact h
+
+/-! ### the hypotheses of `WFf` cannot be dropped (kernel-checked witnesses on the model of the code as it is) -/
+
+def one (t : Term) : Ors := .cons (.cons t .nil) .nil
+
+def deepF : Nat → Ors
+  | 0 => one (tag "a")
+  | n + 1 => one (.parens (deepF n))
+
+/-- 64 nested groups round-trip (by `C08_holds`) … -/
+theorem deep64_ok : filterOfBytes (printFilter (deepF 64)) = .ok (lexImageO (deepF 64)) :=
+  C08_holds _ (by decide +kernel)
+/-- … the 65th does not: the parser's `MAX_NESTING_DEPTH` -/
+theorem cex_depth : (filterOfBytes (printFilter (deepF 65))).isOk = false := by decide +kernel
+
+/-- a Number whose decimal text is accepted by `f64::from_str` but denotes a magnitude that rounds to
+infinity (1 followed by 309 zeros; `Display for f64` never prints such a text for a finite value) is rejected by
+the filter lexer's `is_infinite()` test; with one zero less it is accepted -/
+def bigNum (zeros : Nat) : Num := ⟨⟨0, '1' :: List.replicate zeros '0'⟩, none⟩
+theorem cex_number_rounds_to_inf : Hs.Zinc.finiteNumOk (bigNum 309) = true ∧
+    (filterOfBytes (printFilter (one (.cmp [seg "a"] .eq (.num (bigNum 309)))))).isOk = false := by decide +kernel
+example : OkLit2 (.num (bigNum 308)) := by decide +kernel
+
+/-- NaN and the infinities print as `NaN`, `INF`, `-INF`, which the filter grammar does not admit -/
+theorem cex_nan : (filterOfBytes (printFilter (one (.cmp [seg "a"] .eq
+    (.num ⟨⟨Hs.Zinc.nanBits, seg "NaN"⟩, none⟩))))).isOk = false := by decide +kernel
+theorem cex_neg_inf : (filterOfBytes (printFilter (one (.cmp [seg "a"] .eq
+    (.num ⟨⟨Hs.Zinc.negInfBits, seg "-inf"⟩, none⟩))))).isOk = false := by decide +kernel
+/-- a unit outside the unit table -/
+theorem cex_unit : (filterOfBytes (printFilter (one (.cmp [seg "a"] .eq
+    (.num ⟨⟨0, seg "5"⟩, some (seg "foo")⟩))))).isOk = false := by decide +kernel
+/-- a zone name the zone table does not resolve -/
+theorem cex_zone : (filterOfBytes (printFilter (one (.cmp [seg "a"] .eq
+    (.dateTime ⟨0, 0, 0, seg "Nowhere", seg "Nowhere", seg "2024-02-29T12:34:56Z"⟩))))).isOk = false := by
+  decide +kernel
+/-- a calendar date chrono rejects -/
+theorem cex_date : (filterOfBytes (printFilter (one (.cmp [seg "a"] .eq
+    (.date ⟨2023, 2, 29, seg "2023-02-29"⟩))))).isOk = false := by decide +kernel
+/-- the lone path `not` is the operator; an empty `Or` prints as the empty text -/
+theorem cex_not : (filterOfBytes (printFilter (one (.has kwNot)))).isOk = false := by decide +kernel
+theorem cex_empty : (filterOfBytes (printFilter .nil)).isOk = false := by decide +kernel
+/-- a Ref id outside the id alphabet ends at the first foreign byte: `@a b` is read as the Ref `a` -/
+theorem cex_ref_id : (filterOfBytes (printFilter (one (.cmp [seg "x"] .eq (.ref (seg "a b") none))))).isOk = false := by
+  decide +kernel
+
 def printsAs (r : Res Ors) (s : String) : Bool :=
   match r with
   | .ok o => printFilter o == bytes s
@@ -199,7 +357,7 @@ def printsAs (r : Res Ors) (s : String) : Bool :=
 
 /-- the formerly failing input, evaluated -/
 theorem p1_path_ends : printsAs (filterOfBytes (bytes "d->b and c")) "d->b and c" = true := by decide +kernel
-/-- literals of the kinds the proofs do not reach yet, evaluated on examples -/
+/-- a text with literals of several kinds, evaluated -/
 theorem ex_literals : printsAs (filterOfBytes (bytes
     "a == true and b != \"x\\n\\u00e9\" and c < 5kW and d >= 2021-03-04 and e *== @r and ^sym and rel? ^t @x and u == `http://x`"))
     "a == true and b != \"x\\né\" and c < 5kW and d >= 2021-03-04 and e *== @r and ^sym and rel? ^t @x and u == `http://x`" = true := by
